@@ -113,7 +113,7 @@ func (c *Checker) floorCheck(name string, got, want int) {
 	c.floors = append(c.floors, floor{name, got, want})
 }
 
-func (c *Checker) trust(s ...string)  { c.trusted = append(c.trusted, s...) }
+func (c *Checker) trust(s ...string)    { c.trusted = append(c.trusted, s...) }
 func (c *Checker) assuming(s ...string) { c.assume = append(c.assume, s...) }
 
 func loadFindings(verif string) (*findingsFile, error) {
@@ -226,22 +226,22 @@ func (c *Checker) finish(evidPath string) int {
 		floors = append(floors, map[string]interface{}{"rule_instance": fl.name, "matched": fl.got, "floor": fl.want})
 	}
 	cov := map[string]interface{}{
-		"obligations":        len(c.obs),
-		"discharged":         nProved,
-		"known_findings":     nKnown,
-		"checker_cmd":        fmt.Sprintf("/verif/run.sh %s %s", c.Prop, c.Tier),
-		"trusted_base":       c.trusted,
-		"explanation":        c.explain,
-		"samples":            samples,
-		"rule_counts":        ruleCounts,
-		"floors":             floors,
-		"functions_analysed": fns,
-		"packages_loaded":    len(c.P.Pkgs),
-		"ssa_functions":      c.P.NFunc,
-		"evaluations":        len(c.obs),
+		"obligations":         len(c.obs),
+		"discharged":          nProved,
+		"known_findings":      nKnown,
+		"checker_cmd":         fmt.Sprintf("/verif/run.sh %s %s", c.Prop, c.Tier),
+		"trusted_base":        c.trusted,
+		"explanation":         c.explain,
+		"samples":             samples,
+		"rule_counts":         ruleCounts,
+		"floors":              floors,
+		"functions_analysed":  fns,
+		"packages_loaded":     len(c.P.Pkgs),
+		"ssa_functions":       c.P.NFunc,
+		"evaluations":         len(c.obs),
 		"distinct_nontrivial": len(c.seen),
-		"rule":               "one obligation per rule/function/construct; distinct by that key; every obligation is a non-trivial proof task on the current source",
-		"exhaustive":         true,
+		"rule":                "one obligation per rule/function/construct; distinct by that key; every obligation is a non-trivial proof task on the current source",
+		"exhaustive":          true,
 	}
 	for k, v := range c.extra {
 		cov[k] = v
